@@ -206,6 +206,8 @@ def check(ctx: Ctx) -> None:
     from ..dsf import auto_memo_check
     ctx.rule('C04.c', 'no auto-discovered lazily filled cache of the classes in the anchored modules can be stale at the exit of a public method (dependencies = what the fill expression reads, incl. mutating calls on held sub-objects)', floor=6)
     auto_memo_check(ctx, 'C04.c', [MI])
+    from .c20 import check_gmd_bookkeeping
+    check_gmd_bookkeeping(ctx, 'C04.g')
     if deferred is not None:
         raise deferred
     if cannot_tell:
